@@ -103,6 +103,29 @@ Section Spec.
                                          | None => false
                                          end) (carried cr)) visible.
 
+  (* what a successful user-management statement must have achieved, read off the user table
+     the node reports afterwards.  REVOKE r: no need overlapping r is covered by the grant on
+     that database any more (an administrator keeps access through the admin flag only) *)
+  Definition stmt_effect_ok (x : xstmt) (users_after : list user) : bool :=
+    match x with
+    | XRevoke name db r =>
+        match find_user users_after name with
+        | Some u => forallb (fun need => (N.land need r =? 0) ||
+                                         negb (grant_covers (lookup_priv (u_privs u) db) need))
+                            [ReadPrivilege; WritePrivilege; AllPrivileges]
+        | None => true
+        end
+    | XRevokeAdmin name => match find_user users_after name with Some u => negb (u_admin u) | None => true end
+    | XDropUser name => match find_user users_after name with Some _ => false | None => true end
+    | XSetPassword name h => match find_user users_after name with Some u => u_hash u =? h | None => true end
+    | XGrant name db p => match find_user users_after name with
+                          | Some u => grant_covers (lookup_priv (u_privs u) db) p
+                          | None => true
+                          end
+    | XGrantAdmin name => match find_user users_after name with Some u => u_admin u | None => true end
+    | XOther => true
+    end.
+
   (* AuthorizeQuery said yes for user u *)
   Definition authz_obs_ok (users : list user) (u : option user) (ss : list stmt) (db : str) (ok : bool) : bool :=
     negb ok ||
